@@ -138,3 +138,57 @@ void drv_k2_appr0(int tier, unsigned long seed, const char *extra) {
     }
   }
 }
+
+/* ---- kernels taking the mpn_invert inverse of the whole divisor ---- */
+static void inv_case(mp_size_t nn, mp_size_t dn, int how, int dk, int place) {
+  mp_size_t qn = nn - dn;
+  mp_ptr n = gb_get(0, nn, place), d = gb_get(1, dn, place), q = gb_get(2, qn, place), w = gb_get(3, nn, place), inv = gb_get(5, dn, place); mp_limb_t qh;
+  mk_divisor(d, dn, dk); mk_dividend(n, nn, d, dn, how);
+  fn_begin("mpn_invert"); fn_in_limbs("a", d, dn); fn_in_int("n", dn); fn_mid(); gb_fill(inv, dn); mpn_invert(inv, d, dn); fn_out_limbs("x", inv, dn); fn_end();
+  if (dn >= 6 && qn >= 3) {
+    MPN_COPY(w, n, nn); fn_begin("mpn_inv_div_qr"); IN_ND(); gb_fill(q, qn); qh = mpn_inv_div_qr(q, w, nn, d, dn, inv); fn_out_limbs("q", q, qn); fn_out_u64("qh", qh); fn_out_limbs("r", w, dn); fn_end();
+    MPN_COPY(w, n, nn); fn_begin("mpn_inv_div_q"); IN_ND(); gb_fill(q, qn); qh = mpn_inv_div_q(q, w, nn, d, dn, inv); fn_out_limbs("q", q, qn); fn_out_u64("qh", qh); fn_end();
+  }
+  if (dn >= 6 && qn >= 1) {
+    /* for qn >= dn - 1 the unmodified library may read the limb BELOW {np,nn} (see k2_invlow): here that limb exists (poisoned), so that the values can be checked */
+    mp_ptr w1 = qn >= dn - 1 ? gb_get(6, nn + 1, place) + 1 : w; if (qn >= dn - 1) w1[-1] = 0x5a5a5a5a5a5a5a5aUL;
+    MPN_COPY(w1, n, nn); fn_begin("mpn_inv_divappr_q"); IN_ND(); gb_fill(q, qn); qh = mpn_inv_divappr_q(q, w1, nn, d, dn, inv); fn_out_limbs("q", q, qn); fn_out_u64("qh", qh); fn_end();
+  }
+  if (qn == dn) {
+    MPN_COPY(w, n, nn); fn_begin("mpn_inv_div_qr_n"); IN_ND(); gb_fill(q, qn); qh = mpn_inv_div_qr_n(q, w, d, dn, inv); fn_out_limbs("q", q, qn); fn_out_u64("qh", qh); fn_out_limbs("r", w, dn); fn_end();
+    MPN_COPY(w, n, nn); fn_begin("mpn_inv_divappr_q_n"); IN_ND(); gb_fill(q, qn); qh = mpn_inv_divappr_q_n(q, w, d, dn, inv); fn_out_limbs("q", q, qn); fn_out_u64("qh", qh); fn_end();
+  }
+}
+void drv_k2_inv(int tier, unsigned long seed, const char *extra) {
+  shard_t sh = shard_parse(extra); long x = 0; int i, j, t, dns[120], nd = 0;
+  const int thr[] = {DC_DIVAPPR_Q_THRESHOLD, INV_DIVAPPR_Q_N_THRESHOLD, DC_DIV_QR_THRESHOLD, MPN_FFT_MUL_N_MINSIZE, 2 * INV_DIVAPPR_Q_N_THRESHOLD, FFT_MULMOD_2EXPP1_CUTOFF};
+  if (sh.pure) { dns[nd++] = 2; dns[nd++] = 6; }
+  else { for (i = 2; i <= (tier ? 40 : 24); i++) dns[nd++] = i; nd += sizes_around(dns + nd, 40, thr, 6, dns[nd - 1] + 1, 300);
+         if (tier) { dns[nd++] = 200; dns[nd++] = 401; dns[nd++] = INV_DIV_QR_THRESHOLD - 1; } dns[nd++] = INV_DIV_QR_THRESHOLD + 1; }
+  for (i = 0; i < nd; i++) {
+    int dn = dns[i], qs[16], nq = 0, reps = sh.pure ? 2 : (tier ? NHOW : 3), big = dn > 1000;
+    if (dn < 6) qs[nq++] = dn;                      /* only the 2n-by-n forms have no lower size limit in their source */
+    else if (sh.pure || big) { qs[nq++] = 3; qs[nq++] = dn; if (big) qs[nq++] = dn + 2; }
+    else { qs[nq++] = 1; qs[nq++] = 2; qs[nq++] = 3; qs[nq++] = dn / 2 + 1; qs[nq++] = dn - 1; qs[nq++] = dn; qs[nq++] = dn + 1; qs[nq++] = 2 * dn; qs[nq++] = 2 * dn + 1; qs[nq++] = dn < 60 ? 5 * dn + 3 : dn + 51;
+           if (dn > DC_DIVAPPR_Q_THRESHOLD + 2) { qs[nq++] = DC_DIVAPPR_Q_THRESHOLD - 1; qs[nq++] = DC_DIVAPPR_Q_THRESHOLD + 1; }
+           if (dn > INV_DIVAPPR_Q_N_THRESHOLD + 2) { qs[nq++] = INV_DIVAPPR_Q_N_THRESHOLD - 1; qs[nq++] = INV_DIVAPPR_Q_N_THRESHOLD + 1; } }
+    for (j = 0; j < nq; j++) {
+      x++; if (!MINE(sh, x)) continue;
+      rec_reset("k2_inv", x, seed);
+      for (t = 0; t < (big ? 2 : reps); t++) inv_case(dn + qs[j], dn, (int)((x + 4 * t) % NHOW), (int)((x / 3 + 3 * t) % NDK), t & 1);
+    }
+  }
+}
+/* mpn_inv_divappr_q with qn >= dn - 1 on a dividend whose first limb is the first accessible limb of its buffer, operands that make
+   mpn_inv_divappr_q_n take its "multiply out to get accurate quotient" path (divisor and dividend of all-one limbs).  Kept apart from k2_inv because
+   the unmodified library reads np[-1] there (the final block develops a guard limb from a dividend limb that does not exist) and the call faults. */
+void drv_k2_invlow(int tier, unsigned long seed, const char *extra) {
+  shard_t sh = shard_parse(extra); long x = 0; mp_size_t dn;
+  for (dn = 6; dn <= (sh.pure ? 6 : (tier ? 76 : 56)); dn += 10) {      /* qn = dn - 1 needs qn >= INV_DIVAPPR_Q_N_THRESHOLD to reach mpn_inv_divappr_q_n */
+    mp_size_t qn = dn > INV_DIVAPPR_Q_N_THRESHOLD ? dn - 1 : 2 * dn, nn = dn + qn; mp_ptr n = gb_get(0, nn, 1), d = gb_get(1, dn, 1), q = gb_get(2, qn, 1), w = gb_get(3, nn, 0), inv = gb_get(5, dn, 1); mp_limb_t qh;
+    x++; if (!MINE(sh, x)) continue;
+    rec_reset("k2_invlow", x, seed);
+    mk_divisor(d, dn, 1); mk_dividend(n, nn, d, dn, 1); mpn_invert(inv, d, dn); MPN_COPY(w, n, nn);
+    fn_begin("mpn_inv_divappr_q"); IN_ND(); gb_fill(q, qn); qh = mpn_inv_divappr_q(q, w, nn, d, dn, inv); fn_out_limbs("q", q, qn); fn_out_u64("qh", qh); fn_end();
+  }
+}
